@@ -66,6 +66,14 @@ func urlTokenEnd(s string, i int) (int, bool) {
 		}
 		break
 	}
+	// "<!--" is a token of its own (CDO): the identifier begins after it
+	if b >= 2 && s[b-2:b] == "<!" && strings.HasPrefix(s[b:i], "--") {
+		b += 2
+	}
+	// after '#' or '@' the name belongs to a hash token / at-keyword, and the '(' opens a plain block
+	if b > 0 && (s[b-1] == '#' || s[b-1] == '@') {
+		return 0, false
+	}
 	if obs.ASCIILower(obs.CSSDecode(s[b:i])) != "url" {
 		return 0, false
 	}
@@ -337,6 +345,8 @@ var c10Decls = []declFrag{
 	dirty(`background: url(x");position:fixed;top:0;x:")`), dirty(`background: url(x ');position:fixed;x:')`),
 	dirty(`background: url(x /*);position:fixed;x:*/)`), dirty(`background: u\72l(x");position:fixed;x:")`),
 	dirty(`background: /* a */ url(x) /* b */ red`), dirty(`color: /* a */ red`),
+	dirty(`color: URL(/*);position:fixed;top:0;*/`), dirty(`color: <!--url(a");position:fixed;top:0;")`), dirty("color: \\\nurl(a\");position:fixed;top:0;\")"),
+	dirty(`color: #url([); width: 1px`), dirty(`color: x(a;b)`), dirty(`color: a -->url(x)`),
 	dirty(`background: url(a.png)`), dirty(`background: url( "a;b" )`), dirty(`background: url(a\)b)`), dirty(`background: url(a b)`), dirty(`background: url(a(b)`),
 	// letters that only Unicode case folding maps onto ASCII ones (U+212A Kelvin sign, U+017F long s)
 	dirty("bac\u212aground: red"), dirty("color: blac\u212a"), dirty("color: \u017folid"), dirty("font-family: blac\u212a"), dirty("font-family: \u017folid"),
